@@ -66,6 +66,10 @@ CLAIMED["C11"] = ("Bounded symbolic model checking of terminal restoration on ev
  "Trusted: gosx, the VT100 model in the harness package (zzverif.VT), terminal stubs. Single-line buffers of lower-case letters; hints/menus are not open at exit; MakeRaw failing is not driven.",
  "symbolic execution of the real SSA (Readline loop, display engine, term package) + SMT (z3) equality of symbolic termios and VT-model cursor assertions", "DESIGN.md §5 C11")
 
+CLAIMED["C04"] = ("Bounded symbolic model checking of the redisplay against a VT100 model: the real display engine paints two successive frames (different symbolic buffers and cursor positions) on a terminal of symbolic width that answers cursor-position queries truthfully; after each frame the model's grid must equal the reference layout of prompt + buffer (no remnants) and its cursor must be on the cell of the buffer cursor, for all widths/positions of a path.",
+ "Trusted: gosx, the VT100 model (zzverif.VT: cursor movement, CR/LF, EL/ED, deferred autowrap) and the reference layout built with it. One-cell characters (lower-case letters), single logical line, no hints/menus, no right/transient prompt.",
+ "symbolic execution of the real SSA (display engine, term package) + SMT (z3) path decisions over symbolic width/cursor, grid equality assertions against a reference layout", "DESIGN.md §5 C04")
+
 PENDING = {}
 
 NA = {
